@@ -114,14 +114,48 @@ def integerLiteral : P Sx := do
         <|> (do let v ← hexInteger; pure (sxSigned v false)) <|> signedInteger
   pure (.n "IntegerLiteral" [("value", v), ("data_type", dt)])
 
+/-- binary64 overflow threshold: decimal values `≥ 2^1024 − 2^970` round to infinity (ties to even) -/
+def realInfThreshold : Nat := 2 ^ 1024 - 2 ^ 970
+
+/-- does the cleaned text `ddd.ddd[E[±]ddd]` denote a value that `f64::from_str` rounds to infinity?
+exact integer arithmetic on mantissa × 10^scale -/
+def realOverflows (cleaned : List Char) : Bool :=
+  let isDigit (c : Char) : Bool := '0' ≤ c && c ≤ '9'
+  let intPart := cleaned.takeWhile isDigit
+  let rest := cleaned.dropWhile isDigit
+  let rest := match rest with | '.' :: r => r | r => r
+  let fracPart := rest.takeWhile isDigit
+  let rest := rest.dropWhile isDigit
+  let (expNeg, expDigits) := match rest with
+    | _ :: '-' :: ds => (true, ds)
+    | _ :: '+' :: ds => (false, ds)
+    | _ :: ds => (false, ds)
+    | [] => (false, [])
+  let mantDigits := (intPart ++ fracPart).dropWhile (· == '0')
+  let mant := (natOfDigits 10 (intPart ++ fracPart)).getD 0
+  -- an exponent that is not a plain number is left to the caller (the token shape excludes it)
+  let e := (natOfDigits 10 expDigits).getD 0
+  if mant == 0 then false else
+  -- value = mant × 10^(±e − |fracPart|)
+  if expNeg then
+    let down := e + fracPart.length
+    if down ≥ mantDigits.length then false else mant ≥ realInfThreshold * 10 ^ down
+  else if e ≥ fracPart.length then
+    let up := e - fracPart.length
+    if up + mantDigits.length > 400 then true else mant * 10 ^ up ≥ realInfThreshold
+  else
+    let down := fracPart.length - e
+    if down ≥ mantDigits.length then false else mant ≥ realInfThreshold * 10 ^ down
+
 /-- `RealLiteral::try_parse`: underscores removed; only digits `.` `E` `e` `-` `+` may remain.
-The value handed to `f64::from_str` is kept as text (`R:<sign><text>`): binary64 rounding is Rust's. -/
+The value handed to `f64::from_str` is kept as text (`R:<sign><text>`): binary64 rounding is Rust's;\na value that rounds to infinity is rejected. -/
 def realLiteral : P Sx := do
   let dt ← optType realTypeName
   let sign ← opt ((do let _ ← tok "Minus"; pure "-") <|> (do let _ ← tok "Plus"; pure ""))
   let t ← tok "FloatingPoint" <|> tok "FixedPoint"
   let cleaned := t.text.filter (· != '_')
-  if cleaned.all (fun c => ('0' ≤ c && c ≤ '9') || c == '.' || c == 'E' || c == 'e' || c == '-' || c == '+') then
+  if cleaned.all (fun c => ('0' ≤ c && c ≤ '9') || c == '.' || c == 'E' || c == 'e' || c == '-' || c == '+')
+      && !realOverflows cleaned then
     pure (.n "RealLiteral" [("value", .a ("R:" ++ sign.getD "" ++ String.ofList cleaned)), ("data_type", dt)])
   else fail
 
